@@ -14,7 +14,7 @@ from simkit.reactor import SimReactor, Sim, SimHang, FakeSelectable, GRID
 from simkit.tape import digest_of
 
 ID = "C15"
-RUNS = {"quick": 250_000, "thorough": 4_000_000}
+RUNS = {"quick": 200_000, "thorough": 4_000_000}
 SIM_TIME_UNIT = "virtual seconds"
 RULE = (
     "each run = a history of 1..4 Spinner.run calls on one Spinner over one virtual-time reactor "
